@@ -714,9 +714,12 @@ pub fn drive_dec(spec: &DecSpec, mode: DecMode, source: &mut dyn OpSource, mut p
                         if q <= (1 << 20) {
                             // never below the documented minimum: a smaller sink is
                             // outside the documented preconditions of decode_*
-                            cap = q.max(min);
+                            cap = q.max(min) + offer.slack as usize;
                             by_query = true;
                             run.faults.query_exact += 1;
+                            if offer.slack != 0 {
+                                run.probe("query_sized_sink_with_slack");
+                            }
                         }
                     }
                 }
